@@ -3,4 +3,6 @@ pub mod ev;
 pub mod par;
 pub mod canon;
 pub mod sdk;
+pub mod tamper;
+pub mod streams;
 pub use ev::{Run, Tier};
